@@ -225,8 +225,12 @@ def one_tree(tspec, acc, rnd, sample=False, forced=None):
         dirs = [d for d in trees.all_dirs(tspec)]
         mp_rel = forced["mp"] if forced else (rnd.choice(dirs) if rnd.random() < 0.3 else "")
         mp_abs = os.path.join(root, mp_rel) if mp_rel else root
-        HUB.case = {"kind": "baseline", "spec": tspec, "mp": mp_rel}
-        get_evaluable_architecture(root, mp_abs, exclusions=(), regex_exclusions=())
+        include = forced.get("include", False) if forced else rnd.random() < 0.3
+        inc_kw = {"exclude_external_libraries": False} if include else {}
+        if include:
+            acc.count("include_mode_trees")
+        HUB.case = {"kind": "baseline", "spec": tspec, "mp": mp_rel, "include": include}
+        get_evaluable_architecture(root, mp_abs, exclusions=(), regex_exclusions=(), **inc_kw)
         base = HUB.scan_events[-1]
         acc.count("baseline_scans")
         rounds = [forced] if forced else [None] * 4
@@ -250,10 +254,10 @@ def one_tree(tspec, acc, rnd, sample=False, forced=None):
                             return name  # cannot match at the start of an absolute path
                         return ".*/" + name + "(/|$)"
                     pats = [rxform(p) for p in pats]
-            case = {"kind": "filtered", "spec": tspec, "mp": mp_rel, "use_regex": use_regex, "patterns": [p.replace(root, "<ROOT>") for p in pats]}
+            case = {"kind": "filtered", "spec": tspec, "mp": mp_rel, "use_regex": use_regex, "patterns": [p.replace(root, "<ROOT>") for p in pats], "include": include}
             HUB.case = case
             kw = {"exclusions": (), "regex_exclusions": tuple(pats)} if use_regex else {"exclusions": tuple(pats)}
-            get_evaluable_architecture(root, mp_abs, **kw)
+            get_evaluable_architecture(root, mp_abs, **kw, **inc_kw)
             se = HUB.scan_events[-1]
             acc.evaluated()
             # (a) monitor findings that the unfiltered scan does not show
@@ -261,12 +265,22 @@ def one_tree(tspec, acc, rnd, sample=False, forced=None):
             # (b) metamorphic relation with the unfiltered scan
             globs, regexes = ((), tuple(pats)) if use_regex else (tuple(pats), ())
             surv, closed = survivors(tspec, root, mp_abs, base.nodes, globs, regexes)
-            if se.nodes != closed:
-                HUB.violation("C08", "modules-differ-from-unfiltered-minus-excluded", "filtered module set is not the unfiltered set minus the excluded paths", {"patterns": case["patterns"], "extra": sorted(se.nodes - closed), "missing": sorted(closed - se.nodes)})
+            mpn = trees.mod_of("proj", mp_rel)
+            internal = lambda n: n == mpn or is_ancestor(mpn, n) or is_ancestor(n, mpn)  # noqa: E731
+            got_nodes = {n for n in se.nodes if internal(n)} if include else set(se.nodes)
+            if got_nodes != closed:
+                HUB.violation("C08", "modules-differ-from-unfiltered-minus-excluded", "filtered module set is not the unfiltered set minus the excluded paths", {"patterns": case["patterns"], "include_externals": include, "extra": sorted(got_nodes - closed), "missing": sorted(closed - got_nodes)})
+            if include:
+                new_ext = {n for n in se.nodes if not internal(n)} - set(base.nodes)
+                if new_ext:
+                    HUB.violation("C08", "exclusion-adds-modules", "modules appeared that the unfiltered scan does not have", {"patterns": case["patterns"], "new": sorted(new_ext)})
+            got_imps = {(a, b) for a, b in se.imps if internal(a) and internal(b)} if include else set(se.imps)
             exp_imps = {(a, b) for a, b in base.imps if a in surv and b in closed}
-            lost = {e for e in exp_imps - se.imps if not is_ancestor(e[1], e[0])}
+            lost = {e for e in exp_imps - got_imps if not is_ancestor(e[1], e[0])}
+            if include:
+                lost |= {(a, b) for a, b in base.imps if a in surv and not internal(b) and (a, b) not in se.imps}
             extra = set()
-            for a, b in se.imps - exp_imps:
+            for a, b in got_imps - exp_imps:
                 if is_ancestor(b, a):
                     continue
                 if any(x == a and c not in closed and c.rsplit(".", 1)[0] == b for x, c in base.imps):
@@ -274,7 +288,7 @@ def one_tree(tspec, acc, rnd, sample=False, forced=None):
                     continue
                 extra.add((a, b))
             if lost or extra:
-                HUB.violation("C08", "imports-differ-from-unfiltered-restricted", "imports among surviving modules changed by the exclusion", {"patterns": case["patterns"], "lost": sorted(lost), "extra": sorted(extra)})
+                HUB.violation("C08", "imports-differ-from-unfiltered-restricted", "imports among surviving modules changed by the exclusion", {"patterns": case["patterns"], "include_externals": include, "lost": sorted(lost), "extra": sorted(extra)})
             nb = {n for n in base.nodes}
             removed = nb - se.nodes
             acc.hist("effect", "none" if not removed else "all" if not se.nodes else "some")
@@ -308,7 +322,7 @@ def replay(case, acc):
             HUB.case = case
             HUB.violation("C08", "convert:replayed", f"pattern {p!r} vs {s!r}: code says {got}", case)
         return
-    forced = {"mp": case["mp"], "use_regex": case.get("use_regex", False), "patterns": case.get("patterns", [])}
+    forced = {"mp": case["mp"], "use_regex": case.get("use_regex", False), "patterns": case.get("patterns", []), "include": case.get("include", False)}
     one_tree(case["spec"], acc, random.Random(0), forced=forced)
 
 
